@@ -57,6 +57,10 @@ def gen_text(rng, kind=None):
         lines.append("addi x9, x9, 1")
     if data:
         d = ["v: .word 7, 8, 9"]
+        for _ in range(rng.randrange(0, 3)):
+            d.append(rng.choice(['s%d: .string "ab%s"' % (len(d), "cd" * rng.randrange(0, 3)), "b%d: .byte 1, 2, 3" % len(d),
+                                 "h%d: .half 0x1234, 5" % len(d), "z%d: .zero %d" % (len(d), rng.randrange(0, 3))]))
+        rng.shuffle(d)
         return "\n".join([".data"] + d + [".text"] + lines) if rng.random() < 0.5 else "\n".join([".text"] + lines + [".data"] + d), kind
     return "\n".join(lines), kind
 
@@ -261,16 +265,26 @@ def gen_toy_text(rng):
         else:
             lines.append("STO %d" % rng.randrange(0, n + 1))       # self-modification
     lines.append("end:")
-    return "\n".join(lines + [".data", "x: .word 3", "y: .word 0, 65535"])
+    data = ["x: .word %d" % rng.randrange(0, 9), "y: .word " + ", ".join(str(rng.randrange(0, 70000)) for _ in range(rng.randrange(1, 4)))]
+    for k in range(rng.randrange(0, 3)):
+        data.append("w%d: .word %s" % (k, ", ".join(str(rng.randrange(1, 99)) for _ in range(rng.randrange(1, 5)))))
+    if rng.random() < 0.15:
+        return "\n".join([".data"] + data)                     # a program without instructions
+    return "\n".join(lines + [".data"] + data) if rng.random() < 0.6 else "\n".join([".data"] + data + [".text"] + lines)
 
 
 class LifecycleToy(Slice):
     name = "lifecycle-toy"
 
     def gen(self, rng, index, tier):
-        texts = [gen_toy_text(rng) for _ in range(rng.choice([1, 1, 2]))]
-        if len(texts) > 1 and rng.random() < 0.5:
-            texts[0] += "\nBRZ nowhere"
+        texts = [gen_toy_text(rng) for _ in range(rng.choice([1, 2, 2, 3]))]
+        for k in range(len(texts) - 1):
+            if rng.random() < 0.5:
+                # a load that fails late (after the data segment was written): undefined label in the text segment
+                ls = texts[k].split("\n")
+                pos = ls.index(".data") if ".data" in ls and ls[0] != ".data" else len(ls)
+                ls.insert(pos, "BRZ nowhere")
+                texts[k] = "\n".join(ls)
         ops = [[5, t] for t in texts] + [0] * rng.randrange(0, 10) + [[4, 500]] + [rng.choice([0, [4, 500]]) for _ in range(rng.randrange(0, 3))]
         return {"ops": ops}
 
